@@ -1133,10 +1133,36 @@ func genC19(g *Gen) {
 		}
 	}
 
+	// (1d) big trees: height 10..11 (>= 1024 candidate paths, results of hundreds of paths), Decode / AllPaths held by
+	// several goroutines at once - buffers that are pooled or cached only above a size threshold
+	for b := 0; b < g.N(6, 40); b++ {
+		h := uint(r.Pick(10, 10, 11))
+		t := int32(1)<<(h+1) - 1 // full
+		if r.Intn(3) == 0 {
+			t = int32(1)<<h | int32(r.U64())&(1<<h-1)
+		}
+		ws := make([]uint64, (1<<(h+1))/64)
+		for i := range ws {
+			ws[i] = r.U64() | r.U64()
+		}
+		x.setInputs(ws, t, c19Keys(r, 3))
+		var calls []c19Call
+		for _, f := range []int{24, 124, 24, 23, 124} {
+			if c, ok := x.callOn(f % 100); ok {
+				c.fid = f
+				if f == 23 {
+					c.p1, c.p2 = 0, 1<<63
+				}
+				calls = append(calls, c)
+			}
+		}
+		x.emit(8, 1, calls, "big-tree")
+	}
+
 	// (2) mixed batches of all functions over random shared inputs, 8..16 goroutines.
 	// First over ascending sizes (capacity boundaries of a hidden scratch buffer are crossed in order),
 	// then random.
-	nb := g.N(700, 8000)
+	nb := g.N(600, 8000)
 	for b := 0; b < nb; b++ {
 		var nw, nkeys int
 		if b < 64 {
